@@ -160,6 +160,12 @@ def build_stream(name, log):
         os.unlink(out)
     shutil.copy(os.path.join(REPO, 'go.sum'), os.path.join(HARNESS, 'go.sum'))
     cmd = ['go', 'build']
+    if REPO != '/repo' and not st.get('daemon'):
+        # a snapshot of the repository (vp run --with-repo): same module file with the replace path redirected
+        mf = os.path.join(BUILD, 'harness.go.mod')
+        open(mf, 'w').write(open(os.path.join(HARNESS, 'go.mod')).read().replace('=> /repo', '=> ' + REPO))
+        shutil.copy(os.path.join(REPO, 'go.sum'), os.path.join(BUILD, 'harness.go.sum'))
+        cmd += ['-modfile', mf]
     cwd = HARNESS
     env = goenv()
     if st.get('overlay'):
